@@ -1,0 +1,79 @@
+// MIT License
+//
+// Copyright (c) 2022-2026 GoAkt Team
+//
+// Permission is hereby granted, free of charge, to any person obtaining a copy
+// of this software and associated documentation files (the "Software"), to deal
+// in the Software without restriction, including without limitation the rights
+// to use, copy, modify, merge, publish, distribute, sublicense, and/or sell
+// copies of the Software, and to permit persons to whom the Software is
+// furnished to do so, subject to the following conditions:
+//
+// The above copyright notice and this permission notice shall be included in all
+// copies or substantial portions of the Software.
+//
+// THE SOFTWARE IS PROVIDED "AS IS", WITHOUT WARRANTY OF ANY KIND, EXPRESS OR
+// IMPLIED, INCLUDING BUT NOT LIMITED TO THE WARRANTIES OF MERCHANTABILITY,
+// FITNESS FOR A PARTICULAR PURPOSE AND NONINFRINGEMENT. IN NO EVENT SHALL THE
+// AUTHORS OR COPYRIGHT HOLDERS BE LIABLE FOR ANY CLAIM, DAMAGES OR OTHER
+// LIABILITY, WHETHER IN AN ACTION OF CONTRACT, TORT OR OTHERWISE, ARISING FROM,
+// OUT OF OR IN CONNECTION WITH THE SOFTWARE OR THE USE OR OTHER DEALINGS IN THE
+// SOFTWARE.
+
+//go:build verif
+
+package actor
+
+import (
+	"context"
+
+	"github.com/tochemey/goakt/v4/internal/cluster"
+	"github.com/tochemey/goakt/v4/internal/internalpb"
+	"github.com/tochemey/goakt/v4/internal/remoteclient"
+	"github.com/tochemey/goakt/v4/log"
+)
+
+// This file exposes the relocation planner to the external verification
+// harness. Every function is a plain forwarder to the unexported planner
+// function of the same name. Verification harness only.
+
+// VerifRelocationBatchSize is defaultRelocationBatchSize.
+const VerifRelocationBatchSize = defaultRelocationBatchSize
+
+// VerifAllocateActors forwards to allocateActors.
+func VerifAllocateActors(leaderRoles []string, peers []*cluster.Peer, nodeLeftState *internalpb.PeerState, baseLoads []int) (leaderShares []*internalpb.Actor, peersShares [][]*internalpb.Actor, unplaceable []*internalpb.Actor) {
+	return allocateActors(leaderRoles, peers, nodeLeftState, baseLoads)
+}
+
+// VerifRelocatableGrains forwards to relocatableGrains.
+func VerifRelocatableGrains(grains map[string]*internalpb.Grain) []*internalpb.Grain {
+	return relocatableGrains(grains)
+}
+
+// VerifAllocateGrains forwards to allocateGrains.
+func VerifAllocateGrains(totalPeers int, grains []*internalpb.Grain) (leaderShares []*internalpb.Grain, peersShares [][]*internalpb.Grain) {
+	return allocateGrains(totalPeers, grains)
+}
+
+// VerifBuildRelocateBatchRequests forwards to buildRelocateBatchRequests.
+func VerifBuildRelocateBatchRequests(departedNode string, actors []*internalpb.Actor, grains []*internalpb.Grain) []*internalpb.RelocateBatchRequest {
+	return buildRelocateBatchRequests(departedNode, actors, grains)
+}
+
+// VerifReassignByRole forwards to reassignByRole and returns the failures it recorded.
+func VerifReassignByRole(requests []*internalpb.RelocateBatchRequest, survivors []*cluster.Peer, leaderRoles []string) (actorShares [][]*internalpb.Actor, leaderActors []*internalpb.Actor, grains []*internalpb.Grain, failed []*internalpb.RelocationFailure) {
+	failures := &relocationFailures{}
+	actorShares, leaderActors, grains = reassignByRole(requests, survivors, leaderRoles, failures)
+	return actorShares, leaderActors, grains, failures.items()
+}
+
+// VerifRelocateShare runs relocateShare on a worker that has no pid (no
+// local/leader fallback) and the given remoting client, and returns the
+// failures it recorded.
+func VerifRelocateShare(remoting remoteclient.Client, requests []*internalpb.RelocateBatchRequest, target *cluster.Peer, peers []*cluster.Peer) []*internalpb.RelocationFailure {
+	w := newRelocationWorker(remoting)
+	w.logger = log.DiscardLogger
+	failures := &relocationFailures{}
+	w.relocateShare(context.Background(), requests, target, peers, failures)
+	return failures.items()
+}
